@@ -56,7 +56,11 @@ def kinds : List Kind :=
     { attackT := 3, skillT := 2, ultT := 2, spNeed := 1, spAdd := 1 },
     { attackT := 3, skillT := 1, ultT := 1, spNeed := 2, spAdd := 1 },
     { attackT := 3, skillT := 3, ultT := 3, spNeed := 0, spAdd := 2 },
-    { attackT := 3, skillT := 3, ultT := 3, spNeed := 1, spAdd := 1, multi := true } ]
+    { attackT := 3, skillT := 3, ultT := 3, spNeed := 1, spAdd := 1, multi := true },
+    -- a custom `Skill.CanUse` is a further condition on top of the cost: one that always allows changes nothing,
+    -- one that never allows is a cost no team can pay (skill points never exceed 5)
+    { attackT := 3, skillT := 3, ultT := 3, spNeed := 1, spAdd := 1 },
+    { attackT := 3, skillT := 3, ultT := 3, spNeed := 1000, spAdd := 1 } ]
 
 def cyc {β} [Inhabited β] (l : List β) (i : Nat) : β := if l.isEmpty then default else l.getD (i % l.length) default
 
@@ -166,6 +170,7 @@ def runModel (op : Rec) (obs : List Rec) : List Rec × List String :=
 
 def stepO (_ : Unit) (op : Rec) (obs : List Rec) : Unit × List Rec × List String :=
   if op.name != "run" then ((), [Rec.mk' "badop"], [])
+  else if obs.any (·.name == "hang") then ((), [Rec.mk' "the-model-run-terminates"], ["hang"])
   else if obs.any (·.name == "capped") then ((), obs, ["capped"])
   else
     let (m, tags) := runModel op obs
